@@ -9,6 +9,7 @@ import TsVerif.C06.SiblingNamed
 import TsVerif.C06.SiblingNamedNext
 import TsVerif.C06.NamedFcb
 import TsVerif.C06.CursorFcb
+import TsVerif.C06.FieldWitness
 #print axioms TsVerif.C06.child_spec
 #print axioms TsVerif.C06.flattenKids_length
 #print axioms TsVerif.C06.child_count_spec
@@ -111,3 +112,5 @@ import TsVerif.C06.CursorFcb
 #print axioms TsVerif.C06.cfc_scan_spec
 #print axioms TsVerif.C06.cfc_go_spec
 #print axioms TsVerif.C06.cursor_first_child_for_spec
+#print axioms TsVerif.C06.nest_port
+#print axioms TsVerif.C06.child_by_field_id_full_false
